@@ -667,22 +667,46 @@ func C36(c *Ctx) {
 		}
 	}
 	if fn := c.Fn("wal", "Watchdog.observe"); fn != nil {
-		for i, s := range need(c, r2, fn, false, "RemoveSegment", rm, 1) {
-			// raft guard: id ranges over analysis.RemovableSegments
-			arg := s.Common().Args[len(s.Common().Args)-1]
-			raftOK := rangesOverField(arg, "metrics.WALBacklogAnalysis", "RemovableSegments", 6)
-			c.Decide(raftOK, r2, key(fn, fmt.Sprintf("RemoveSegment[%d]#G-raft", i+1)), s.Pos(), 2, "ids come from AnalyzeWALBacklog(...).RemovableSegments (below every raft pointer)", "watchdog removes ids not taken from RemovableSegments")
-			// LSM guard: none of the accepted forms
-			lsmOK := false
-			for _, m := range []Matcher{canRm, Named("lsm.(*levelManager).logPointer"), Named("manifest.(*Manager).Current")} {
-				if len(Calls(fn, true, m)) > 0 {
-					lsmOK = true
+		// the removal loop may live in a helper of observe that is handed the removable ids
+		isRmW := func(ci ssa.CallInstruction) bool { return rm(ci.Common()) }
+		sites := effectSites(c, fn, isRmW, 1)
+		c.Decide(len(sites) >= 1, r2, key(fn, "has:RemoveSegment"), fn.Pos(), len(sites)+1, fmt.Sprintf("%d removal site(s)", len(sites)), "expected at least 1 call(s) to RemoveSegment in (*wal.Watchdog).observe, found 0")
+		n := 0
+		for _, site := range sites {
+			g := fn
+			fromRemovable := func(v ssa.Value) bool {
+				return rangesOverField(v, "metrics.WALBacklogAnalysis", "RemovableSegments", 6)
+			}
+			if !isRmW(site) {
+				g = StaticFn(site.Common())
+				okParam := map[ssa.Value]bool{}
+				for i, a := range site.Common().Args {
+					if i < len(g.Params) && (fromRemovable(a) || sliceOfField(a, "metrics.WALBacklogAnalysis", "RemovableSegments", 6)) {
+						okParam[g.Params[i]] = true
+					}
 				}
+				fromRemovable = func(v ssa.Value) bool { return rangesOverParam(v, okParam, 6) }
 			}
-			if f := fieldReads(fn); f["wal.Watchdog.logPointer"] || f["wal.Watchdog.flushedSegment"] {
-				lsmOK = true
+			for _, s := range Calls(g, false, rm) {
+				n++
+				// raft guard: id ranges over analysis.RemovableSegments
+				arg := s.Common().Args[len(s.Common().Args)-1]
+				raftOK := fromRemovable(arg)
+				c.Decide(raftOK, r2, key(fn, fmt.Sprintf("RemoveSegment[%d]#G-raft", n)), s.Pos(), 2, "ids come from AnalyzeWALBacklog(...).RemovableSegments (below every raft pointer)", "watchdog removes ids not taken from RemovableSegments")
+				// LSM guard: none of the accepted forms
+				lsmOK := false
+				for _, hf := range []*ssa.Function{fn, g} {
+					for _, m := range []Matcher{canRm, Named("lsm.(*levelManager).logPointer"), Named("manifest.(*Manager).Current")} {
+						if len(Calls(hf, true, m)) > 0 {
+							lsmOK = true
+						}
+					}
+					if f := fieldReads(hf); f["wal.Watchdog.logPointer"] || f["wal.Watchdog.flushedSegment"] {
+						lsmOK = true
+					}
+				}
+				c.Decide(lsmOK, r2, key(fn, fmt.Sprintf("RemoveSegment[%d]#G-lsm", n)), s.Pos(), 2, "LSM guard present", "the watchdog removes a segment below the raft retain point without knowing that the LSM entries in it are flushed (no manifest log pointer / flushed-segment input)")
 			}
-			c.Decide(lsmOK, r2, key(fn, fmt.Sprintf("RemoveSegment[%d]#G-lsm", i+1)), s.Pos(), 2, "LSM guard present", "the watchdog removes a segment below the raft retain point without knowing that the LSM entries in it are flushed (no manifest log pointer / flushed-segment input)")
 		}
 	}
 	const r4 = "K11.flush-order"
@@ -734,7 +758,9 @@ func C36(c *Ctx) {
 					}
 					seen[x] = true
 					if r, ok := x.Instrs[len(x.Instrs)-1].(*ssa.Return); ok {
-						if cst, ok := r.Results[0].(*ssa.Const); ok && cst.Value != nil && cst.Value.String() == "false" {
+						// a return that can answer false: the constant false, or a computed
+						// answer such as `!untruncated`
+						if cst, ok := r.Results[0].(*ssa.Const); !ok || (cst.Value != nil && cst.Value.String() == "false") {
 							veto = true
 						}
 						return
@@ -743,7 +769,11 @@ func C36(c *Ctx) {
 						walk(s2)
 					}
 				}
-				walk(b.Succs[0])
+				hasRecords := b.Succs[0]
+				if bo.Op == token.EQL || bo.Op == token.LEQ {
+					hasRecords = b.Succs[1]
+				}
+				walk(hasRecords)
 			}
 		}
 		c.Decide(veto, r3, key(fn, "raft-records-veto-when-untruncated"), fn.Pos(), 2, "a segment with raft records is kept while some group has no truncation point", "canRemoveWalSegment only logs that a segment still holds raft records: for a group that never truncated its log (SegmentIndex == 0) every segment older than its latest record is removed although it holds live log entries, and the raft storage cannot be reopened (missing log entry)")
@@ -1190,4 +1220,55 @@ func commitWGWait(cc *ssa.CallCommon) bool {
 	}
 	o, f, ok := FieldOf(cc.Args[0])
 	return ok && o == "NoKV.DB" && f == "commitWG"
+}
+
+// sliceOfField: v is (a re-slice or phi of) a load of owner.field.
+func sliceOfField(v ssa.Value, owner, field string, depth int) bool {
+	if depth <= 0 || v == nil {
+		return false
+	}
+	if isFieldLoad(v, owner, field) {
+		return true
+	}
+	switch x := v.(type) {
+	case *ssa.Slice:
+		return sliceOfField(x.X, owner, field, depth-1)
+	case *ssa.Phi:
+		for _, e := range x.Edges {
+			if sliceOfField(e, owner, field, depth-1) {
+				return true
+			}
+		}
+	case *ssa.Field:
+		o, f, ok := FieldOf(x)
+		return ok && o == owner && f == field
+	}
+	return false
+}
+
+// rangesOverParam: v is an element (or re-slice element) of one of the slice parameters in ok.
+func rangesOverParam(v ssa.Value, ok map[ssa.Value]bool, depth int) bool {
+	if depth <= 0 || v == nil {
+		return false
+	}
+	if ok[v] {
+		return true
+	}
+	switch x := v.(type) {
+	case *ssa.UnOp:
+		if ia, isIA := x.X.(*ssa.IndexAddr); isIA && x.Op == token.MUL {
+			return rangesOverParam(ia.X, ok, depth-1)
+		}
+	case *ssa.Slice:
+		return rangesOverParam(x.X, ok, depth-1)
+	case *ssa.Phi:
+		for _, e := range x.Edges {
+			if rangesOverParam(e, ok, depth-1) {
+				return true
+			}
+		}
+	case *ssa.Index:
+		return rangesOverParam(x.X, ok, depth-1)
+	}
+	return false
 }
